@@ -1,5 +1,7 @@
 import PfVerif.Audit.Tool
 import PfVerif.Props.C10
 import PfVerif.Lemmas.C10QE
+import PfVerif.Lemmas.C10Jump
 #audit_module PfVerif.Props.C10
 #audit_module_ns PfVerif.Lemmas.C10QE PfVerif.C10QE
+#audit_module_ns PfVerif.Lemmas.C10Jump PfVerif.C10Jump
